@@ -170,6 +170,15 @@ def make_sentinel_class():
     return Sentinel
 
 
+class WiredStr(str):
+    """A string whose attribute reads are observable (literals and plain strings are not): member access on a *string* receiver
+    goes through the same guard as on any other object."""
+    def __getattribute__(self, name):
+        if ARMED[0] and name.startswith("_") and name != "__class__":
+            LOG.append(("string-instance", name, _frame()))
+        return str.__getattribute__(self, name)
+
+
 _S = {}
 
 
@@ -183,10 +192,11 @@ def env(kind):
     if kind == "formats":
         # names bound to *format strings* that name private fields (a string node's value, as MatchUnless passes it) next to
         # sentinels: `from.format(to)` has a str receiver here and a sentinel receiver in the other environments
-        return {"from": "{0._secret}{0.__class__}", "to": s, "s": "{0._secret}", "d": {"k": "{0._Sentinel__mangled}"},
-                "lst": ["{0.__dict__}", s], "n": 3, "t": s}
+        return {"from": WiredStr("{0._secret}{0.__class__}"), "to": s, "s": WiredStr("{0._secret}"), "d": {"k": "{0._Sentinel__mangled}"},
+                "lst": [WiredStr("{0.__dict__}"), s], "n": 3, "t": s}
     # as MatchUnless builds it: plain values (here holding sentinels so that reads stay observable)
-    return {"from": {"k": s, "n": 5, "t": "text"}, "to": [s, 1, "x"], "s": s, "d": {"k": s}, "lst": [s, s], "n": 3, "t": "abc{0._secret}"}
+    return {"from": {"k": s, "n": 5, "t": WiredStr("text")}, "to": [s, 1, WiredStr("x")], "s": s, "d": {"k": s}, "lst": [s, s], "n": 3,
+            "t": WiredStr("abc{0._secret}")}
 
 
 # ---------------------------------------------------------------------------------------------
